@@ -39,10 +39,16 @@ ACCESSORS = [
 ]
 
 
-def D(cp, protocol=None, omit=(), fd=None):
+def D(cp, protocol=None, omit=(), fd=None, spec=None, xml=False):
     """one definition (COMPARAM-REF) of parameter cp; omit: True (simple value left out) or the
-    names of sub-values left out; fd: concrete text of a CP_CANFDTxMaxDataLength definition"""
-    return {"cp": cp, "protocol": protocol, "omit": omit, "fd": fd}
+    names of sub-values left out; fd: concrete text of a CP_CANFDTxMaxDataLength definition;
+    spec: id of the parameter specification if it is not the default one of that name (two
+    specifications may share a short name); xml: the definition is read from its ODX text by
+    ComparamInstance.from_et (concrete numbers)"""
+    return {"cp": cp, "protocol": protocol, "omit": omit, "fd": fd, "spec": spec, "xml": xml}
+
+
+DOIP_TABLE = "doip." + TABLE  # a second specification with the short name CP_UniqueRespIdTable
 
 
 def L(name, typ, parents, *defs):
@@ -94,6 +100,15 @@ HIERARCHIES = {
                                    L("FG", "functional-group", ["P1"], D("CP_Baudrate"), D(TABLE)),
                                    L("BV", "base-variant", ["P1", "FG"]),
                                    L("EV", "ecu-variant", ["BV", "FG"], D("CP_CanFuncReqId"))],
+    # two specifications with the same short name (the ISO-TP and the DoIP response id table):
+    # definitions override each other per SPECIFICATION and protocol, not per short name
+    "same-name-two-specs": [L("P1", "protocol", [], D(TABLE), D("CP_Baudrate")),
+                            L("BV", "base-variant", ["P1"], D(TABLE, spec=DOIP_TABLE)),
+                            L("EV", "ecu-variant", ["BV"], D(TABLE, spec=DOIP_TABLE), D("CP_Baudrate"))],
+    # definitions read from ODX text, sub-values left out in the middle of the complex value
+    "from-xml": [L("P1", "protocol", [], D(TABLE, xml=True, omit=("CP_CanPhysReqFormat", "CP_CanPhysReqExtAddr", "CP_CanRespUSDTId")),
+                   D("CP_Baudrate", xml=True)),
+                 L("EV", "ecu-variant", ["P1"], D("CP_TesterPresentTime", xml=True))],
     # CAN-FD parameters (concrete texts) next to the symbolic ones
     "can-fd": [L("P1", "protocol", [], D("CP_Baudrate"), D("CP_CANFDBaudrate"), D(TABLE),
                  D(FDLEN, fd="TX_DL=8")),
@@ -160,7 +175,7 @@ def ref_available(hier, name):
         for k, v in ref_available(hier, p).items():
             out[k] = v
     for i, d in enumerate(layer["defs"]):
-        out[(d["cp"], d["protocol"])] = _tag(layer, i)
+        out[(d["spec"] or d["cp"], d["protocol"])] = _tag(layer, i)
     return out
 
 
@@ -168,14 +183,18 @@ def ref_lookup(hier, name, cp, protocol):
     """tag of the definition a look-up by parameter name and protocol must return; the string
     'any' if the statement leaves it open (no protocol given, several definitions); None if absent"""
     av = ref_available(hier, name)
+    short = lambda c: c.split(".")[-1]  # noqa: E731  specification id -> short name
+    cands = [(c, pr, t) for (c, pr), t in av.items() if short(c) == cp]
     if protocol is not None:
-        if (cp, protocol) in av:
-            return av[(cp, protocol)]
-        return av.get((cp, None))
-    cands = [t for (c, _), t in av.items() if c == cp]
+        spec_c = [t for c, pr, t in cands if pr == protocol]
+        gen_c = [t for c, pr, t in cands if pr is None]
+        pick = spec_c or gen_c
+        if not pick:
+            return None
+        return pick[0] if len(pick) == 1 else "any"
     if not cands:
         return None
-    return cands[0] if len(cands) == 1 else "any"
+    return cands[0][2] if len(cands) == 1 else "any"
 
 
 def _def_of(hier, tag):
@@ -223,12 +242,35 @@ def run_resolve(sx, cfg, env):
             else:
                 content[(tag, None)] = sx.int(tag, 0, (1 << 32) - 1)
                 value = _text(sx, content[(tag, None)])
-            cps.append({"cp": d["cp"], "value": value, "protocol": d["protocol"], "tag": tag})
+            entry = {"cp": d["cp"], "value": value, "protocol": d["protocol"], "tag": tag}
+            if d["spec"]:
+                entry["spec_id"] = d["spec"]
+            if d["xml"]:
+                # the definition as ODX text with concrete numbers, read by ComparamInstance.from_et
+                base = 1000 * (len(content) + 1)
+                if d["cp"] == TABLE:
+                    parts = []
+                    for j, sn in enumerate(SUBS):
+                        if sn in d["omit"]:
+                            parts.append("<SIMPLE-VALUE/>")
+                        else:
+                            content[(tag, sn)] = base + j
+                            parts.append(f"<SIMPLE-VALUE>{base + j}</SIMPLE-VALUE>")
+                    body = "<COMPLEX-VALUE>" + "".join(parts) + "</COMPLEX-VALUE>"
+                else:
+                    content[(tag, None)] = base
+                    body = f"<SIMPLE-VALUE>{base}</SIMPLE-VALUE>"
+                pr = f'<PROTOCOL-SNREF SHORT-NAME="{d["protocol"]}"/>' if d["protocol"] else ""
+                entry["xml"] = (f'<COMPARAM-REF ID-REF="{entry.get("spec_id", "cps." + d["cp"])}">'
+                                f'{body}{pr}</COMPARAM-REF>')
+            cps.append(entry)
         layers.append({"name": layer["name"], "type": layer["type"], "parents": layer["parents"],
                        "comparams": cps})
     specs = [{"name": n, "default": _text(sx, defaults[n])} for n in SIMPLE] + \
         [{"name": FDLEN, "default": "TX_DL=8"},
-         {"name": TABLE, "sub": [(n, _text(sx, subdefaults[n])) for n in SUBS]}]
+         {"name": TABLE, "sub": [(n, _text(sx, subdefaults[n])) for n in SUBS]},
+         {"name": TABLE, "id": DOIP_TABLE, "subset": "doip",
+          "sub": [(n, _text(sx, subdefaults[n])) for n in SUBS]}]
     with warnings.catch_warnings():
         warnings.simplefilter("ignore")
         h = H.build_hierarchy({"specs": specs, "layers": layers})
